@@ -200,7 +200,7 @@ func runC01(s *kernel.Sim) {
 	models := []*c01model{{name: "exact", alive: true, st: map[string]*c01state{}},
 		{name: "trunc-to-second", trunc: true, alive: true, st: map[string]*c01state{}}}
 	unix := func() int64 { return time.Now().UnixNano() }
-	groups := []string{"", "a", "b", "c"}
+	groups := []string{"", "a", "b", "c", "A"} // values that differ only in case are different groups
 	reqN := 0
 	noise := tp.Chance(1, 3)
 	s.Knobs["unrelated_headers"] = noise
